@@ -211,9 +211,9 @@ def run(ctx) -> None:
                                  "reachable without a successful direct write")
     # ---- R24b in _write_pending_values
     g = cfg_of(wp)
-    flush = [n for n in g.nodes if any(norm(c.func) == "self.decorated.write" for c in n.calls())]
+    flush = [n for n in g.nodes if any(norm(c.func) in ("self.decorated.write", "self.decorated.write_batch") for c in n.calls())]
     if not flush:
-        raise AnchorError("_write_pending_values: decorated.write not found")
+        raise AnchorError("_write_pending_values: decorated.write / write_batch not found")
     for fl in flush:
         conds = [(norm(c), pol) for c, pol in g.conditions_at(fl)]
         inst = "_write_pending_values: flush only in state OK"
@@ -224,8 +224,6 @@ def run(ctx) -> None:
         dels = [n for n in g.nodes if kill_of_container_key(n, _is_pending, None) and fl.id != n.id
                 and n.id in g.search([(fl.id, "")], lambda x: False, collect=True, follow_exc=False)]
         inst = "_write_pending_values: entry deleted only after its write succeeded"
-        bad = [h for h in g.nodes if h.kind == "except" and any(
-            d.id in g.search([h.id], lambda x: x.kind == "for", collect=False) and False for d in dels)]
         # a delete reachable from the flush's exception edge before the next iteration = lost write
         lost = None
         for h in [g.nodes[d] for d, l in g.succ[fl.id] if l == "exc"]:
